@@ -20,6 +20,8 @@ pub enum Fault {
     InvalidDoc,
     /// connection reset without an answer
     Reset,
+    /// (attestation only) the host processes the request - it may latch the key - but the reply is lost
+    ResetAfterCommit,
 }
 
 #[derive(Clone, Debug, Serialize, Deserialize, Hash, PartialEq, Eq)]
@@ -101,7 +103,7 @@ fn fault_response(f: &Fault) -> ResponseSpec {
         Fault::Status(code, body, ct) => ResponseSpec::status(*code, body.as_bytes()).with_header("Content-Type", ct),
         Fault::Garbage(body, ct) => ResponseSpec::ok(body.as_bytes()).with_header("Content-Type", ct),
         Fault::InvalidDoc => ResponseSpec::ok(br#"{"authorizationScheme":"Azure-HMAC-SHA256","keyDeliveryMethod":"http","keyGuid":null,"requiredClaimsHeaderPairs":["isRoot"],"secureChannelState":"bogus-state","version":"1.0"}"#).with_header("Content-Type", "application/json; charset=utf-8"),
-        Fault::Reset => {
+        Fault::Reset | Fault::ResetAfterCommit => {
             let mut r = ResponseSpec::ok(b"");
             r.reset = true;
             r
@@ -256,9 +258,14 @@ impl HostState {
         }
         if r.method == "POST" && path.starts_with("/secure-channel/key/") && path.ends_with("/key-attestation") {
             self.counters.attest_total += 1;
+            let mut lose_reply = false;
             if let Some(f) = self.attest_faults.pop_front() {
                 self.faults_consumed += 1;
-                return fault_response(&f);
+                if f == Fault::ResetAfterCommit {
+                    lose_reply = true;
+                } else {
+                    return fault_response(&f);
+                }
             }
             let guid = path["/secure-channel/key/".len()..path.len() - "/key-attestation".len()].to_string();
             if let Some(dir) = &self.guest_key_dir {
@@ -279,6 +286,9 @@ impl HostState {
             if ok {
                 self.latched = Some(guid);
                 self.counters.attest_ok += 1;
+                if lose_reply {
+                    return fault_response(&Fault::Reset);
+                }
                 return ResponseSpec::ok(b"");
             }
             return ResponseSpec::status(403, b"attestation MAC does not verify");
